@@ -953,7 +953,10 @@ class OmniParser(PVLParser):
                         )
                         return module, False  # return through parse_module()
                 else:
+                    # An equals sign that nothing can be done about:
+                    # return it and let parse_module() report it.
                     tokens.send(t)
+                    raise Exception
             else:
                 # The next token isn't an equals sign or the module is
                 # empty, so we want return the token and signal
